@@ -335,3 +335,169 @@ Theorem C12_sqrt_rem_large_asis_correct : forall w, 2 <= w -> w mod 2 = 0 -> for
   sqrt_rem_large_asis w x = Ok (sqrt_rem_spec x).
 Proof. exact sqrt_rem_large_asis_correct. Qed.
 Print Assumptions C12_sqrt_rem_large_asis_correct.
+
+(** * Lehmer gcd / extended gcd (integer/src/gcd/lehmer.rs, gcd_ops.rs gcd_large / gcd_ext_large), value-level as-is model *)
+From Dashu Require Import Int.GrlLehmer Int.GrlLehmerProof.
+(** lehmer_guess / lehmer_guess_dword: the cosequence matrix stays unimodular with entries in [0, COEFF_LIMIT] *)
+Theorem C12_lehmer_guess_loop_inv : forall fuel B L a b c d xb yb a' b' c' d',
+  0 <= xb -> 0 <= yb -> ginv L a b c d ->
+  lehmer_guess_loop fuel B L a b c d xb yb = Ok (a', b', c', d') ->
+  0 <= a' <= L /\ 0 <= b' <= L /\ 0 <= c' <= L /\ 0 <= d' <= L /\ a' * d' - b' * c' = 1.
+Proof. exact guess_loop_inv. Qed.
+Print Assumptions C12_lehmer_guess_loop_inv.
+
+(** the guess loop ends within w + 1 iterations (b + d at least doubles and stays below 2^w) *)
+Theorem C12_lehmer_guess_total : forall mdl w x y, 2 <= w -> 0 <= y -> lehmer_guess_for mdl w x y <> OutOfFuel.
+Proof. exact lehmer_guess_for_total. Qed.
+Print Assumptions C12_lehmer_guess_total.
+
+Theorem C12_gcd_unimodular : forall a b c d x y, a * d - b * c = 1 ->
+  Z.gcd (a * x - b * y) (d * y - c * x) = Z.gcd x y.
+Proof. exact gcd_unimodular. Qed.
+Print Assumptions C12_gcd_unimodular.
+
+(** gcd_in_place: every iteration (Lehmer step or Euclidean fallback, with or without the ordering swap) keeps the gcd *)
+Theorem C12_lehmer_loop_inv : forall fuel mdl w ml x y sw x' y' sw', 2 <= w -> 0 <= ml -> 0 <= x -> 0 <= y ->
+  lehmer_loop fuel mdl w ml x y sw = Ok (x', y', sw') ->
+  Z.gcd x' y' = Z.gcd x y /\ 0 <= x' /\ 0 <= y'.
+Proof. exact lehmer_loop_inv. Qed.
+Print Assumptions C12_lehmer_loop_inv.
+
+Theorem C12_lehmer_loop_total : forall fuel mdl w ml x y sw, 2 <= w -> 0 <= ml -> 0 <= y <= x ->
+  x + y < Z.of_nat fuel -> lehmer_loop fuel mdl w ml x y sw <> OutOfFuel.
+Proof. exact lehmer_loop_total. Qed.
+Print Assumptions C12_lehmer_loop_total.
+
+(** gcd_ext_in_place: the Bezout congruences x = sg*t0*rhs, y = -sg*t1*rhs (mod lhs), sg = +1 iff swapped *)
+Theorem C12_lehmer_ext_loop_inv : forall fuel mdl w cap lhs rhs x y t0 t1 sw x' y' t0' t1' sw', 2 <= w ->
+  einv lhs rhs x y t0 t1 sw ->
+  lehmer_ext_loop fuel mdl w cap x y t0 t1 sw = Ok (x', y', t0', t1', sw') ->
+  0 <= x' /\ 0 <= y' /\ Z.gcd x' y' = Z.gcd lhs rhs /\
+  (lhs | x' - sg sw' * t0' * rhs) /\ (lhs | y' + sg sw' * t1' * rhs).
+Proof. exact lehmer_ext_loop_inv. Qed.
+Print Assumptions C12_lehmer_ext_loop_inv.
+
+Theorem C12_lehmer_ext_loop_total : forall fuel mdl w cap x y t0 t1 sw, 2 <= w -> 0 <= y <= x ->
+  x + y < Z.of_nat fuel -> lehmer_ext_loop fuel mdl w cap x y t0 t1 sw <> OutOfFuel.
+Proof. exact lehmer_ext_loop_total. Qed.
+Print Assumptions C12_lehmer_ext_loop_total.
+
+(** the sign line [swapped ^= (cx < 0) || (cx == 0 && cy > 0)] relies on this *)
+Theorem C12_prim_gcd_ext_signs : forall fuel a b g s t, 0 <= a -> 0 <= b ->
+  prim_gcd_ext_asis fuel a b = Ok (g, s, t) -> s * t <= 0.
+Proof. exact prim_gcd_ext_signs. Qed.
+Print Assumptions C12_prim_gcd_ext_signs.
+
+Theorem C12_gcd_ext_in_place_correct : forall lf pf mdl w lhs rhs g bm bs, 2 <= w -> 0 <= rhs ->
+  gcd_ext_in_place_gen true lf pf mdl w lhs rhs = Ok (g, bm, bs) ->
+  g = Z.gcd lhs rhs /\ (lhs | g - signed bs bm * rhs).
+Proof. exact gcd_ext_in_place_gen_correct. Qed.
+Print Assumptions C12_gcd_ext_in_place_correct.
+
+(** gcd_large / gcd_ext_large as run by the oracle: any fuel, any word size *)
+Theorem C12_lehmer_gcd_asis_correct : forall fuel w x y g, 2 <= w -> 0 <= x -> 0 <= y ->
+  lehmer_gcd_asis fuel w x y = Ok g -> g = Z.gcd x y.
+Proof. exact lehmer_gcd_asis_correct. Qed.
+Print Assumptions C12_lehmer_gcd_asis_correct.
+
+Theorem C12_lehmer_gcd_ext_asis_correct : forall fuel w x y g s t, 2 <= w -> 0 <= x -> 0 <= y ->
+  lehmer_gcd_ext_asis fuel w x y = Ok (g, s, t) -> gcd_ext_cert x y g s t = true.
+Proof. exact lehmer_gcd_ext_asis_correct. Qed.
+Print Assumptions C12_lehmer_gcd_ext_asis_correct.
+
+(** * primitive square / cube roots (base/src/ring/root.rs NormalizedRootRem, fix_sqrt_error / fix_cbrt_error, wrappers) *)
+From Dashu Require Import Int.GrlPrimRoot Int.GrlPrimRootProof.
+From DashuGen Require Import RootTabs.
+(** RSQRT_TAB, RCBRT_TAB, the four guard constants and MIN_DWORD_GUESS_LEN are re-read from the sources on every run *)
+Theorem C12_root_tabs_are_source :
+  RSQRT_TAB = RSQRT_TAB_gen /\ RCBRT_TAB = RCBRT_TAB_gen /\ ROOT_GUARDS = ROOT_GUARDS_gen /\
+  MIN_DWORD_GUESS_LEN = MIN_DWORD_GUESS_LEN_gen.
+Proof. exact root_tabs_are_source. Qed.
+Print Assumptions C12_root_tabs_are_source.
+
+(** the correction loops: from any underestimate to the exact root, every n *)
+Theorem C12_fix_sqrt_correct : forall fuel HB n s s' e', 0 <= s ->
+  fix_sqrt fuel HB n s = Ok (s', e') -> s' = Z.sqrt n /\ e' = n - s' * s'.
+Proof. exact fix_sqrt_correct. Qed.
+Print Assumptions C12_fix_sqrt_correct.
+
+Theorem C12_fix_sqrt_total : forall fuel HB n s, 0 <= s -> s * s <= n -> Z.sqrt n < HB ->
+  Z.sqrt n - s < Z.of_nat fuel -> exists r, fix_sqrt fuel HB n s = Ok r.
+Proof. exact fix_sqrt_total. Qed.
+Print Assumptions C12_fix_sqrt_total.
+
+Theorem C12_fix_cbrt_correct : forall fuel HB n c c' e', 0 <= c ->
+  fix_cbrt fuel HB n c = Ok (c', e') -> (0 <= c' /\ c' ^ 3 <= n < (c' + 1) ^ 3) /\ e' = n - c' ^ 3.
+Proof. exact fix_cbrt_correct. Qed.
+Print Assumptions C12_fix_cbrt_correct.
+
+Theorem C12_fix_cbrt_total : forall fuel HB n c r0, 0 <= c -> c ^ 3 <= n -> (0 <= r0 /\ r0 ^ 3 <= n < (r0 + 1) ^ 3) -> r0 < HB ->
+  r0 - c < Z.of_nat fuel -> exists r, fix_cbrt fuel HB n c = Ok r.
+Proof. exact fix_cbrt_total. Qed.
+Print Assumptions C12_fix_cbrt_total.
+
+(** u8 .. u64 (table + Newton + correction + normalising wrapper): an answer is the exact root and remainder, all inputs *)
+Theorem C12_prim_sqrt_rem_asis_sound : forall fuel bits n r, (bits = 8 \/ bits = 16 \/ bits = 32 \/ bits = 64) ->
+  0 <= n < 2 ^ bits -> prim_sqrt_rem_asis fuel bits n = Ok r -> r = sqrt_rem_spec n.
+Proof. exact prim_sqrt_rem_asis_sound. Qed.
+Print Assumptions C12_prim_sqrt_rem_asis_sound.
+
+Theorem C12_prim_cbrt_rem_asis_sound : forall fuel bits n c e, (bits = 8 \/ bits = 16 \/ bits = 32 \/ bits = 64) ->
+  0 <= n < 2 ^ bits -> prim_cbrt_rem_asis fuel bits n = Ok (c, e) ->
+  (0 <= c /\ c ^ 3 <= n < (c + 1) ^ 3) /\ e = n - c ^ 3.
+Proof. exact prim_cbrt_rem_asis_sound. Qed.
+Print Assumptions C12_prim_cbrt_rem_asis_sound.
+
+(** finite domains, by computation: EVERY u16 value 0..65535 with at most 3 corrections, EVERY u8 value 0..255 *)
+Theorem C12_prim_sqrt_rem_u16_total : forall n, 0 <= n <= 65535 -> prim_sqrt_rem_asis 4 16 n = Ok (sqrt_rem_spec n).
+Proof. exact prim_sqrt_rem_u16_total. Qed.
+Print Assumptions C12_prim_sqrt_rem_u16_total.
+
+Theorem C12_prim_cbrt_rem_u16_total : forall n, 0 <= n <= 65535 ->
+  exists c, prim_cbrt_rem_asis 4 16 n = Ok (c, n - c ^ 3) /\ (0 <= c /\ c ^ 3 <= n < (c + 1) ^ 3).
+Proof. exact prim_cbrt_rem_u16_total. Qed.
+Print Assumptions C12_prim_cbrt_rem_u16_total.
+
+Theorem C12_prim_sqrt_rem_u8_total : forall n, 0 <= n <= 255 -> prim_sqrt_rem_asis 17 8 n = Ok (sqrt_rem_spec n).
+Proof. exact prim_sqrt_rem_u8_total. Qed.
+Print Assumptions C12_prim_sqrt_rem_u8_total.
+
+Theorem C12_prim_cbrt_rem_u8_total : forall n, 0 <= n <= 255 ->
+  exists c, prim_cbrt_rem_asis 8 8 n = Ok (c, n - c ^ 3) /\ (0 <= c /\ c ^ 3 <= n < (c + 1) ^ 3).
+Proof. exact prim_cbrt_rem_u8_total. Qed.
+Print Assumptions C12_prim_cbrt_rem_u8_total.
+
+(** * the no_std log2 estimator of the unsigned types wider than u16 (base/src/math/log.rs, impl_log2_bounds_for_uint
+      under cfg(not(feature = "std"))), with next_down / next_up on the f32 bit patterns *)
+From Dashu Require Import Int.GrlLog2Wide Int.GrlLog2WideProof.
+Theorem C12_nostd_log2_wide_encloses : forall n, 0 <= n < 2 ^ 128 ->
+  match nostd_log2_wide n with
+  | None => n = 0
+  | Some ((lm, lk), (um, uk)) => log2_lb_holds lm lk n 1 /\ log2_ub_holds um uk n 1
+  end.
+Proof. exact nostd_log2_wide_encloses. Qed.
+Print Assumptions C12_nostd_log2_wide_encloses.
+
+(** any width up to 65000 bits (the shift stays exact in f32) *)
+Theorem C12_nostd_log2_wide_encloses_gen : forall n, 0 <= n -> Z.log2 n < 65000 ->
+  match nostd_log2_wide n with
+  | None => n = 0
+  | Some ((lm, lk), (um, uk)) => log2_lb_holds lm lk n 1 /\ log2_ub_holds um uk n 1
+  end.
+Proof. exact nostd_log2_wide_encloses_gen. Qed.
+Print Assumptions C12_nostd_log2_wide_encloses_gen.
+
+Theorem C12_nostd_log2_wide_u16 : forall n, 0 <= n <= 65535 -> nostd_log2_wide n = nostd_log2_u16 n.
+Proof. exact nostd_log2_wide_u16. Qed.
+Print Assumptions C12_nostd_log2_wide_u16.
+
+(** the bit-pattern functions of the source (next_down / next_up) produce the patterns of the model's values *)
+Theorem C12_nostd_wide_bits_decode : forall n, 2 ^ 16 <= n -> Z.log2 n < 65000 ->
+  let lo := nf_next_down (nf_of_fp8 (nostd_wide_lb256 n)) in
+  let up := nf_next_up (nf_of_fp8 (nostd_wide_ub256 n)) in
+  nostd_wide_bits n = (nf_bits lo, nf_bits up) /\
+  f32_decode (fst (nostd_wide_bits n)) = FFin (fst lo) (snd lo) /\
+  f32_decode (snd (nostd_wide_bits n)) = FFin (fst up) (snd up) /\
+  snd lo <= 0 /\ snd up <= 0.
+Proof. exact nostd_wide_bits_decode. Qed.
+Print Assumptions C12_nostd_wide_bits_decode.
